@@ -281,7 +281,7 @@ func errClass(err error) string {
 // factorForFilter: the groupings / augments factoring of stream yuses without features and without a second
 // augmenting module (the nodes keep the namespace the model gives them)
 func factorForFilter(r *Rng, plain []any) (Case, bool) {
-	u := &ufac{r: r, a2names: map[string]bool{}, plain: plain, dup: map[string]bool{}, noDup: true}
+	u := &ufac{r: r, a2names: map[string]bool{}, plain: plain, dup: map[string]bool{}, noDup: true, noStatus: true}
 	body := deepCopy(plain).([]any)
 	holder := map[string]any{"k": "module", "kids": body}
 	u.holder = holder
@@ -308,8 +308,12 @@ func factorForFilter(r *Rng, plain []any) (Case, bool) {
 	for _, g := range u.bGroup { // (stream yuses keeps the status of a grouping only where no grouping of b uses it)
 		delete(g.(map[string]any), "gstatus")
 	}
-	return Case{"plain": u.plain, "body": carr(holder, "kids"), "mgroupings": u.mGroup, "bgroupings": u.bGroup,
-		"maugments": u.mAug, "aaugments": []any{}, "features": []any{}}, true
+	fc := Case{"plain": u.plain, "body": carr(holder, "kids"), "mgroupings": u.mGroup, "bgroupings": u.bGroup,
+		"maugments": u.mAug, "aaugments": []any{}, "features": []any{}}
+	if dupSiblings(u.plain) || shadowing(fc) {
+		return nil, false
+	}
+	return fc, true
 }
 
 func runYFilter(c Case) string {
